@@ -124,6 +124,16 @@ def check(cls, case, rec):
     move = bounds["move"]
     X = np.array(mesh.points)
     L = float(np.ptp(X[:, 0]))
+    # every second elastic history prescribes TWO components on the moved face: the ramp is a 2-d array with one (ux, uy) row per
+    # substep (uy = 0.3 ux)
+    rowfac = None
+    if cls == "elastic" and (len(case["steps"]) + int(round(1000 * case["mu"]))) % 2 == 0:
+        xr = float(X[:, 0].max())
+        move = fem.Boundary(fc[0], fx=xr, skip=(0, 0, 1))
+        bounds["move"] = move
+        bounds["right"] = fem.Boundary(fc[0], fx=xr, skip=(1, 1, 0))
+        rowfac = np.array([1.0, 0.3])
+        rec.label("two-component-ramp-rows")
     mdof = move.dof  # dofs of the first field carrying the ramped value
     has_state = cls in ("or-hand", "or-ad", "or-composite", "plastic", "mixed-or")
     committed = np.array(body.results.statevars, dtype=float).copy() if has_state else None
@@ -151,7 +161,7 @@ def check(cls, case, rec):
         fin = [v for v in vals if v == v]
         if any((fin[i + 1] - fin[i]) * (fin[i] - fin[i - 1]) < 0 for i in range(1, len(fin) - 1)) or len(set(fin)) < len(fin):
             reversal = True
-        step = fem.Step(items=items, ramp={move: np.array(vals)}, boundaries=bounds)
+        step = fem.Step(items=items, ramp={move: np.array(vals) if rowfac is None else np.array(vals)[:, None] * rowfac[None, :]}, boundaries=bounds)
         gen = step.generate(**kwargs)
         nyield = 0
         raised = False
@@ -179,7 +189,8 @@ def check(cls, case, rec):
             yielded_total += 1
             xv = np.concatenate([f.values.ravel() for f in res.x.fields])
             ulp = 8 * np.finfo(float).eps * max(1.0, abs(vals[i]))
-            rec.close("i-th-result-carries-i-th-ramp-value", float(np.abs(xv[mdof] - vals[i]).max()), ulp, {"step": si, "substep": i, "value": vals[i]})
+            target = vals[i] if rowfac is None else np.tile(vals[i] * rowfac, len(mdof) // 2)
+            rec.close("i-th-result-carries-i-th-ramp-value", float(np.abs(xv[mdof] - target).max()), ulp, {"step": si, "substep": i, "value": vals[i]})
             rec.require("success", bool(res.success))
             # continuation from the previous converged state: a repeated value is already the solution
             if last_value is not None and vals[i] == last_value and cls != "condensed":
@@ -267,7 +278,11 @@ def check(cls, case, rec):
         b2, _ = fem.dof.uniaxial(fc2, clamped=True, move=0.0)
         cuts = sorted(set(round(c, 3) for c in case["split"]))
         ramp2 = [c * end for c in cuts] + [end]
-        st2 = fem.Step(items=items2, ramp={b2["move"]: np.array(ramp2)}, boundaries=b2)
+        if rowfac is not None:
+            xr2 = float(np.array(mesh2.points)[:, 0].max())
+            b2["move"] = fem.Boundary(fc2[0], fx=xr2, skip=(0, 0, 1))
+            b2["right"] = fem.Boundary(fc2[0], fx=xr2, skip=(1, 1, 0))
+        st2 = fem.Step(items=items2, ramp={b2["move"]: np.array(ramp2) if rowfac is None else np.array(ramp2)[:, None] * rowfac[None, :]}, boundaries=b2)
         try:
             out = list(st2.generate(tol=1e-9))
         except ValueError:
